@@ -11,6 +11,9 @@ UNITS["C03"] = [
     dict(test="TestC03_Edits", quick=dict(checks=40, shards=8, shrinktime="10s"), thorough=dict(checks=1200, shards=16)),
     dict(test="TestC03_Raw", quick=dict(checks=3000, shards=2), thorough=dict(checks=60000, shards=8)),
     dict(test="TestC03_Lists", quick=dict(checks=1500, shards=1), thorough=dict(checks=30000, shards=4)),
+    dict(test="TestC03_Sizes", crash_is_violation=True, quick=dict(), thorough=dict(timeout=3000)),
+    dict(test="TestC03_StackLimit", quick=dict(skip=True), thorough=dict(timeout=3000)),
+    dict(fuzz="FuzzAPI", thorough=dict(fuzztime=15)),
 ]
 
 UNITS["C05"] = [
@@ -18,10 +21,13 @@ UNITS["C05"] = [
     dict(test="TestC05_NearValid", quick=dict(checks=5000, shards=2), thorough=dict(checks=100000, shards=8)),
     dict(test="TestC05_Exhaustive", quick=dict(), thorough=dict()),
     dict(test="TestC05_DoublePlus", quick=dict(), thorough=dict()),
+    dict(test="TestC05_Confusables", quick=dict(checks=3000, shards=2), thorough=dict(checks=60000, shards=8)),
+    dict(fuzz="FuzzAPI", thorough=dict(fuzztime=15)),
 ]
 
 UNITS["C04"] = [
     dict(test="TestC04_Agreement", quick=dict(checks=2500, shards=4), thorough=dict(checks=50000, shards=16)),
+    dict(fuzz="FuzzAPI", thorough=dict(fuzztime=15)),
 ]
 
 UNITS["C02"] = [
@@ -66,6 +72,8 @@ UNITS["C12"] = [
 ]
 
 UNITS["C13"] = [
+    dict(test="TestC13_ColdStart", race=True, crash_is_violation=True,
+         quick=dict(checks=1, shards=6, shrinktime="2s"), thorough=dict(checks=1, shards=48, shrinktime="2s")),
     dict(test="TestC13_Histories", race=True, crash_is_violation=True,
          quick=dict(checks=60, shards=5, shrinktime="5s"), thorough=dict(checks=1500, shards=8, shrinktime="10s")),
     dict(test="TestC13_Histories", race=True, crash_is_violation=True,
@@ -75,6 +83,7 @@ UNITS["C13"] = [
 UNITS["C14"] = [
     dict(test="TestC14_Families", quick=dict(), thorough=dict(timeout=3000)),
     dict(test="TestC14_RandomTrees", quick=dict(checks=400, shards=2), thorough=dict(checks=3000, shards=4)),
+    dict(test="TestC14_GeneratedFamilies", quick=dict(checks=25, shards=4, shrinktime="30s"), thorough=dict(checks=250, shards=8, shrinktime="60s")),
 ]
 
 UNITS["C15"] = [
